@@ -41,7 +41,7 @@ Print Assumptions C13_item_aligned.
    ones included, are the positions at which the generator-side function `spell` wrote them *)
 Theorem C13_fragment_line_numbers : forall types t f ln st,
   fragment_config types = true -> wf_b t = true -> (depth t <= f)%nat ->
-  fst (fst (tokenize_block types (S f) (text_of (spell t)) ln st)) = [pre_of ln t].
+  fst (fst (tokenize_block types (S f) (text_of (spell t)) ln st)) = [pre_of false ln t].
 Proof. intros. rewrite fragment_tree_cfg by assumption. reflexivity. Qed.
 Print Assumptions C13_fragment_line_numbers.
 
